@@ -69,8 +69,15 @@ def correspond(scenarios, stats=None, k1=None):
                 stats["rejected"] = stats.get("rejected", 0) + 1
             try:
                 mout = S.parse_out(line)
-                S.compare_op(op, run, rec, mout, stats)
+                pending = []
+                S.compare_op(op, run, rec, mout, stats, pending=pending)
                 S.compare_state(op, rec, mout, stats)
+                for row in pending:
+                    verdict = resolve_tie(scn, run, recs, j, row)
+                    stats["knn_tie_" + verdict] = stats.get("knn_tie_" + verdict, 0) + 1
+                    if verdict == "unexplained":
+                        raise S.Mismatch("row %d: the k-th distance is tied, and no valid choice of the k nearest rows "
+                                         "reproduces the implementation's answer" % row)
             except S.Mismatch as m:
                 failures.append({"index": idx, "op_index": j, "reason": str(m), "model_line": line[:400],
                                  "impl": {"raised": rec["raised"], "result": repr(rec["result"])[:400]}})
@@ -80,6 +87,66 @@ def correspond(scenarios, stats=None, k1=None):
                                  "protocol": True})
                 break
     return failures
+
+
+TIE_CAP = 80
+
+
+def resolve_tie(scn, run, recs, j, row):
+    """KNearest, k-th distance tied, model (stable choice / numpy's choice) and implementation disagree on query row `row` of
+    op `j`: re-run the model with every valid choice of the k nearest rows (all rows strictly closer than the k-th distance plus
+    any subset of the tied ones); 'resolved' if one of them reproduces the implementation's answer for that row, 'unexplained' if
+    none does (a violation: no valid tie-break explains the answer), 'capped' if there are too many choices to enumerate."""
+    import itertools
+    op, rec = scn["ops"][j], recs[j]
+    kd = (rec.get("oracle") or {}).get("kd")
+    npc = scn["cfg"].get("np") or {}
+    if not kd or npc.get("k") != "knn" or row >= len(kd):
+        return "capped"
+    d = kd[row]
+    k = npc["kk"]
+    if k > len(d):
+        return "capped"
+    dk = sorted(d)[k - 1]
+    strict = [i for i, x in enumerate(d) if x < dk]
+    tied = [i for i, x in enumerate(d) if x == dk]
+    need = k - len(strict)
+    n_alt = 1
+    for t in range(need):
+        n_alt = n_alt * (len(tied) - t) // (t + 1)
+    if need < 0 or n_alt > TIE_CAP:
+        return "capped"
+    prefix = [S.enc_new(scn["cfg"], run, k1=scn.get("k1fixed", False))]
+    for op0, rec0 in zip(scn["ops"][:j], recs[:j]):
+        prefix.extend(S.enc_op(op0, run, rec0))
+    lines, n_lines = [], []
+    for extra in itertools.combinations(tied, need):
+        alt = dict(rec, oracle=dict(rec["oracle"], ksets=[list(x) for x in rec["oracle"]["ksets"]]))
+        alt["oracle"]["ksets"][row] = strict + list(extra)
+        ls = prefix + S.enc_op(op, run, alt)
+        lines.extend(ls)
+        n_lines.append(1 + j + 1)
+    try:
+        outs = run_driver(lines)
+    except DriverError:
+        return "capped"
+    pos = 0
+    for n in n_lines:
+        mine = outs[pos:pos + n]
+        pos += n
+        if len(mine) < n:
+            return "capped"
+        try:
+            mout = S.parse_out(mine[-1])
+            still = []
+            S.compare_op(op, run, rec, mout, {}, pending=still, only_row=row)
+            if not still:
+                return "resolved"
+        except S.Mismatch:
+            continue
+        except Exception:  # noqa: BLE001
+            return "capped"
+    return "unexplained"
 
 
 def check_one(scn, k1=None):
